@@ -19,11 +19,14 @@
 EXTENDS Integers, Sequences, FiniteSets, TLC
 
 \* ---- Part 1
+\* (a call form the library is expected to reject part-way - e.rejects = 1, e.g. a distance computation whose AMG options
+\* cannot be used - may raise; its arguments and the global random state are as they were after the exception as well)
+Judged(e) == e.raised = 0 \/ e.rejects = 1
 FrameVerdict(e) ==
-  (IF e.raised = 1 THEN {"CallTotal"} ELSE {})
-  \cup (IF e.raised = 0 /\ \E k \in DOMAIN e.pre : k \notin {e.mut[i] : i \in 1..Len(e.mut)} /\ e.post[k] # e.pre[k]
+  (IF e.raised = 1 /\ e.rejects = 0 THEN {"CallTotal"} ELSE {})
+  \cup (IF Judged(e) /\ \E k \in DOMAIN e.pre : k \notin {e.mut[i] : i \in 1..Len(e.mut)} /\ e.post[k] # e.pre[k]
         THEN {"ArgumentsUnmodified"} ELSE {})
-  \cup (IF e.raised = 0 /\ e.rng_same = 0 THEN {"GlobalRandomStateUnchanged"} ELSE {})
+  \cup (IF Judged(e) /\ e.rng_same = 0 THEN {"GlobalRandomStateUnchanged"} ELSE {})
   \cup (IF e.raised = 0 /\ e.arith_ok = 0 THEN {"ArithmeticAgreesWithArrays"} ELSE {})
 Changed(e) == {k \in DOMAIN e.pre : e.post[k] # e.pre[k]}
 =============================================================================
